@@ -57,11 +57,13 @@ type viol struct{ sig, detail string }
 
 // pair is one leader/follower engine pair owned by one worker goroutine.
 type pair struct {
-	leader   *engx.Engine
-	follower *engx.Engine
-	conns    map[uint64]*grpc.ClientConn
-	stops    []func()
-	cache    int
+	leader         *engx.Engine
+	follower       *engx.Engine
+	conns          map[uint64]*grpc.ClientConn
+	stops          []func()
+	cache          int
+	closed         bool
+	followerClosed bool
 
 	mu      sync.Mutex
 	observe func(table string, idx uint64) // set per path
@@ -113,6 +115,7 @@ func (p *pair) startFollower(old *engx.Engine) error {
 		f, e2 := engx.Start(o)
 		if e2 == nil {
 			p.follower = f
+			p.followerClosed = false
 			return nil
 		}
 		err = e2
@@ -122,10 +125,14 @@ func (p *pair) startFollower(old *engx.Engine) error {
 }
 
 func (p *pair) close() {
+	if p.closed {
+		return
+	}
+	p.closed = true
 	for _, s := range p.stops {
 		s()
 	}
-	if p.follower != nil {
+	if p.follower != nil && !p.followerClosed {
 		p.follower.Close()
 	}
 	p.leader.Close()
@@ -366,6 +373,7 @@ func (p *pair) run(c Case) (vs []viol, outcome string, inconclusive string) {
 		case evRestartFollower:
 			old := p.follower
 			old.Close()
+			p.followerClosed = true
 			_ = old.Cluster.Close()
 			if err := p.startFollower(old); err != nil {
 				return nil, "", "FATAL follower restart: " + err.Error()
